@@ -14,14 +14,14 @@ vars == <<op, k, kind, persist, log, faulted, nfaults, result, mutated, pc>>
 
 Cleanup  == {"file.Close"}
 Mutating == {"fs.OpenFile", "fs.Create", "file.Write", "file.WriteAt", "file.Truncate", "fs.Remove", "fs.Rename"}
-Kinds(d) == IF d = "file.Write" THEN {"error", "short"} ELSE IF d = "readerat.ReadAt" THEN {"error", "eof"}       \* eof: short count + io.EOF (file truncated underneath)
+Kinds(d) == IF d = "file.Write" THEN {"error", "short", "short1", "short4"}       \* short counts: half, all but one, all but four bytes ELSE IF d = "readerat.ReadAt" THEN {"error", "eof"}       \* eof: short count + io.EOF (file truncated underneath)
             ELSE IF d = "file.Read" THEN {"error", "partial-error", "partial"} ELSE {"error"}
 (* partial-error: some of the requested bytes arrive together with an error; partial: a short count WITHOUT an error, which *)
 (* is not a failure under the io.Reader contract - the operation has to read on and either succeed with the whole value     *)
 (* or report an error, never succeed with the part (Benign below).                                                           *)
 Benign == {"partial"}
 
-Init == /\ op \in DOMAIN Ops /\ k \in 0..Len(Ops[op]) /\ kind \in {"error", "short", "eof", "partial-error", "partial"}
+Init == /\ op \in DOMAIN Ops /\ k \in 0..Len(Ops[op]) /\ kind \in {"error", "short", "short1", "short4", "eof", "partial-error", "partial"}
         /\ (k = 0 => kind = "error") /\ (k > 0 => kind \in Kinds(Ops[op][k]))
         /\ persist \in BOOLEAN /\ (k = 0 \/ kind # "error" => persist = FALSE) /\ nfaults = 0
         /\ log = <<>> /\ faulted = FALSE /\ result = "none" /\ mutated = FALSE /\ pc = "run"
